@@ -6,26 +6,180 @@ set_option linter.unusedVariables false
 namespace WD.ProofsObs
 open WD WD.Obs
 
-/-- what is known about the record of the thread that is in the middle of a step -/
+abbrev NoX : Eid → Prop := fun _ => False
+
+/-- what is known about the record of the thread that is in the middle of a step (a client, or the dispatcher inside a
+    callback) -/
 structure TM (t : Thread) : Prop where
   ne : ∀ e, t.kind ≠ .emitter e
   it : t.iter.isSome = true → t.kind = .dispatcher
+  di : t.kind = .dispatcher → t.iter.isSome = true
 
 theorem TM.same {t t' : Thread} (h : TM t) (hk : t'.kind = t.kind) (hi : t'.iter = t.iter) : TM t' :=
-  ⟨fun e => by rw [hk]; exact h.ne e, fun x => by rw [hk]; exact h.it (hi ▸ x)⟩
-theorem TM.iter_none {t t' : Thread} (h : TM t) (hk : t'.kind = t.kind) (hi : t'.iter = none) : TM t' :=
-  ⟨fun e => by rw [hk]; exact h.ne e, fun x => by rw [hi] at x; cases x⟩
+  ⟨fun e => by rw [hk]; exact h.ne e, fun x => by rw [hk]; exact h.it (hi ▸ x), fun x => by rw [hi]; exact h.di (hk ▸ x)⟩
+
+/-- what the stepping thread carries about the state: the sentinel fact of a dispatcher, and that the emitter its
+    stale record may keep "pending" is registered (or stopped) -/
+structure TS (s : State) (t : Thread) : Prop where
+  sq : t.kind = .dispatcher → Sent s.hist → QItem.stop ∈ s.queue ∨ TwoD s
+  pe : ∀ h w e, t.pc = .schedStarted h w e → AliveOk s e
+
+theorem TS.rel {s s' : State} {t t' : Thread} (h : TS s t) (r : Rel s s') (hk : t'.kind = t.kind) (hp : t'.pc = t.pc) : TS s' t' :=
+  ⟨fun hd hS => by
+      rw [r.qe]; exact (h.sq (hk ▸ hd) (r.hs hS)).imp id (fun x => x.mono r.kp),
+   fun h0 w e hpc => r.am e (h.pe h0 w e (hp ▸ hpc))⟩
+
+theorem TS.frame {s s' : State} {t : Thread} (h : TS s t) (ht : s'.threads = s.threads) (he : s'.emObjs = s.emObjs)
+    (hr : s'.regEm = s.regEm) (hq : s'.queue = s.queue) (hh : s'.hist = s.hist) : TS s' t :=
+  ⟨fun hk hS => by rw [hq]; exact (h.sq hk (hh ▸ hS)).imp id (fun x => x.mono (KP.of_eq ht)),
+   fun h0 w e hp => by
+     obtain ⟨y, hy, hal⟩ := h.pe h0 w e hp
+     exact ⟨y, by simpa [State.em?, he] using hy, by rw [hr]; exact hal⟩⟩
+
+theorem TS.frameLog {s s' : State} {t : Thread} (h : TS s t) (ht : s'.threads = s.threads) (he : s'.emObjs = s.emObjs)
+    (hr : s'.regEm = s.regEm) (hq : s'.queue = s.queue) (o : Obs) (hh : s'.hist = s.hist ++ [o]) (ho : sentObs o = false) :
+    TS s' t := by
+  refine ⟨fun hk hS => ?_, fun h0 w e hp => ?_⟩
+  · rw [hq]
+    have hS' : Sent s.hist := by
+      rw [hh] at hS
+      rcases (Sent_snoc _ _).mp hS with h1 | h1
+      · exact h1
+      · rw [ho] at h1; cases h1
+    exact (h.sq hk hS').imp id (fun x => x.mono (KP.of_eq ht))
+  · obtain ⟨y, hy, hal⟩ := h.pe h0 w e hp
+    exact ⟨y, by simpa [State.em?, he] using hy, by rw [hr]; exact hal⟩
+
+theorem TS.release {s : State} {t : Thread} (h : TS s t) : TS s.release t := by
+  apply h.frame <;> (unfold State.release; split) <;> rfl
+
+theorem Rel.frame (s s' : State) (ht : s'.threads = s.threads) (he : s'.emObjs = s.emObjs) (hr : s'.regEm = s.regEm)
+    (hq : s'.queue = s.queue) (hh : s'.hist = s.hist) (hst : s.stoppedD = true → s'.stoppedD = true) : Rel s s' :=
+  Rel.of_frame ht he hr hq hh hst
+
+theorem Rel.log (s : State) (o : Obs) (ho : sentObs o = false) : Rel s (s.log o) :=
+  ⟨EmMono.refl _, KP.refl _, fun e h => h, fun h => h, rfl, (fun h => by
+    rcases (Sent_snoc _ _).mp h with h | h
+    · exact h
+    · rw [ho] at h; cases h), id⟩
+
+theorem Rel.release (s : State) : Rel s s.release := by
+  apply Rel.of_frame <;> (unfold State.release; split) <;> first | rfl | exact id
+
+theorem Rel.setThread {s : State} {ti : Nat} {t : Thread} (ht : s.thread? ti = some t) (t' : Thread) (hk : t'.kind = t.kind) :
+    Rel s (s.setThread ti t') :=
+  ⟨EmMono.refl _, KP.setThread ht t' hk, fun e h => h, fun h => h, rfl, id, id⟩
+
+theorem Rel.trans {a b c : State} (h1 : Rel a b) (h2 : Rel b c) : Rel a c :=
+  ⟨h1.em.trans h2.em, h1.kp.trans h2.kp, fun e h => h2.am e (h1.am e h), fun h => h2.rs (h1.rs h),
+   h2.qe.trans h1.qe, fun h => h1.hs (h2.hs h), fun h => h2.st (h1.st h)⟩
+
+/-- the record left behind by a step that ends inside an API call (made by a client, or from a callback) -/
+theorem TG.atCb {s : State} {t : Thread} (hM : TM t) (hS : TS s t) (pc : Pc) (hcb : cbPc pc = true)
+    (hju : ∀ w e, pc = .unschedJoin w e → Stopped s e) (hja : ∀ es fs, pc = .uallJoin es fs → ∀ e ∈ es, Stopped s e)
+    (hsc : ∀ h w e, pc = .schedStarted h w e → ∃ o, s.em? e = some o)
+    (hst : ∀ es, pc = .startEm es → ∀ e ∈ es, AliveOk s e)
+    (hrs : ∀ es fs, pc = .uallJoin es fs → ∀ e ∈ s.regEm, Stopped s e)
+    (hsj : ∀ es, pc = .uallJoin es true → s.stoppedD = true) :
+    TG s { t with pc := pc } where
+  disp := by
+    rintro (h | h)
+    · exact hM.it h
+    · cases pc <;> simp [isDpc, cbPc] at h hcb
+  cb := fun _ => Or.inl hcb
+  epcE := fun e h => absurd h (hM.ne e)
+  epcO := by
+    rintro (h | h)
+    · have h' : pc = .eEmit := h
+      rw [h'] at hcb; cases hcb
+    · have h' : pc = .eWait := h
+      rw [h'] at hcb; cases hcb
+  dj := fun hk hi => by
+    have h1 := hM.di hk
+    have hi' : t.iter = none := hi
+    rw [hi'] at h1; cases h1
+  joinU := hju
+  joinA := hja
+  sched := hsc
+  emObj := fun e h => absurd h (hM.ne e)
+  startEs := hst
+  regS := hrs
+  q1 := fun hp _ => by
+    have hp' : pc = .dWait := hp
+    rw [hp'] at hcb; cases hcb
+  sq := fun hk _ hSent => hS.sq hk hSent
+  stopA := fun hp => by
+    have hp' : pc = .acq .stop := hp
+    rw [hp'] at hcb; cases hcb
+  stopJ := hsj
+
+/-- ... or at a point where no callback can be running (so the thread is a client) -/
+theorem TG.atPlain {s : State} {t : Thread} (hM : TM t) (hi : t.iter = none) (pc : Pc) (hd : isDpc pc = false)
+    (he : pc ≠ .eEmit ∧ pc ≠ .eWait) (hju : ∀ w e, pc ≠ .unschedJoin w e) (hja : ∀ es fs, pc ≠ .uallJoin es fs)
+    (hsc : ∀ h w e, pc ≠ .schedStarted h w e) (hst : ∀ es, pc ≠ .startEm es)
+    (hsa : pc = .acq .stop → s.stoppedD = true) : TG s { t with pc := pc } where
+  disp := by
+    rintro (h | h)
+    · simp [hi] at h
+    · simp [hd] at h
+  cb := fun h => by simp [hi] at h
+  epcE := fun e h => absurd h (hM.ne e)
+  epcO := by
+    rintro (h | h)
+    · exact absurd h he.1
+    · exact absurd h he.2
+  dj := fun hk _ => by have := hM.di hk; simp [hi] at this
+  joinU := fun w e h => absurd h (hju w e)
+  joinA := fun es fs h => absurd h (hja es fs)
+  sched := fun h0 w e h => absurd h (hsc h0 w e)
+  emObj := fun e h => absurd h (hM.ne e)
+  startEs := fun es h => absurd h (hst es)
+  regS := fun es fs h => absurd h (hja es fs)
+  q1 := fun hp _ => by
+    have hp' : pc = .dWait := hp
+    rw [hp'] at hd; cases hd
+  sq := fun hk _ _ => by have := hM.di hk; simp [hi] at this
+  stopA := hsa
+  stopJ := fun es h => absurd h (hja es true)
+
+end WD.ProofsObs
+
+namespace WD.ProofsObs
+open WD WD.Obs
+
+/-- the record the dispatcher leaves behind at its loop head / in `queue.get` -/
+theorem TG.atD {s : State} {t : Thread} (hk : t.kind = .dispatcher) (hi : t.iter = none) (pc : Pc) (nf : Bool)
+    (hdj : djPc pc = true)
+    (hq1 : pc = .dWait → nf = false → s.queue = [] ∨ TwoD s)
+    (hsq : pc ≠ .done → Sent s.hist → QItem.stop ∈ s.queue ∨ TwoD s) : TG s { t with pc := pc, notified := nf } where
+  disp := fun _ => hk
+  cb := fun h => by simp [hi] at h
+  epcE := fun e h => by simp [hk] at h
+  epcO := by rintro (h | h) <;> (have h' : pc = _ := h; rw [h'] at hdj; cases hdj)
+  dj := fun _ _ => hdj
+  joinU := fun w e h => by have h' : pc = _ := h; rw [h'] at hdj; cases hdj
+  joinA := fun es fs h => by have h' : pc = _ := h; rw [h'] at hdj; cases hdj
+  sched := fun h0 w e h => by have h' : pc = _ := h; rw [h'] at hdj; cases hdj
+  emObj := fun e h => by simp [hk] at h
+  startEs := fun es h => by have h' : pc = _ := h; rw [h'] at hdj; cases hdj
+  regS := fun es fs h => by have h' : pc = _ := h; rw [h'] at hdj; cases hdj
+  q1 := hq1
+  sq := fun _ hp hS => hsq hp hS
+  stopA := fun h => by have h' : pc = _ := h; rw [h'] at hdj; cases hdj
+  stopJ := fun es h => by have h' : pc = _ := h; rw [h'] at hdj; cases hdj
+
+theorem Rel.pop (s : State) (rest : List QItem) (l : Option QItem) (hq : ∃ item, s.queue = item :: rest) :
+    EmMono s ({ s with queue := rest, last := l } : State) ∧ (∀ e, AliveOk s e → AliveOk ({ s with queue := rest, last := l } : State) e) :=
+  ⟨EmMono.refl _, fun e h => h⟩
 
 theorem gpass_d (ti : Nat) : ∀ fuel,
-    (∀ s s' t, dLoopX fuel s ti = some s' → s.thread? ti = some t → t.kind = .dispatcher → t.iter = none → GX s ti → GQ s') ∧
-    (∀ s s' t, dGetX fuel s ti = some s' → s.thread? ti = some t → t.kind = .dispatcher → t.iter = none → GX s ti → GQ s') := by
+    (∀ s s' t, dLoopX fuel s ti = some s' → s.thread? ti = some t → t.kind = .dispatcher → t.iter = none →
+        (∀ h w e, t.pc = .schedStarted h w e → AliveOk s e) →
+        (s.stoppedD = true ∨ (Sent s.hist → QItem.stop ∈ s.queue ∨ TwoD s)) → GX s ti NoX → GQ s') ∧
+    (∀ s s' t, dGetX fuel s ti = some s' → s.thread? ti = some t → t.kind = .dispatcher → t.iter = none →
+        (∀ h w e, t.pc = .schedStarted h w e → AliveOk s e) →
+        (Sent s.hist → QItem.stop ∈ s.queue ∨ TwoD s) → GX s ti NoX → GQ s') := by
   intro fuel
-  have hTG : ∀ (s : State) (t : Thread) (pc : Pc), t.kind = .dispatcher → t.iter = none →
-      (∀ w e, pc ≠ .unschedJoin w e) → (∀ es fs, pc ≠ .uallJoin es fs) → (∀ h w e, pc ≠ .schedStarted h w e) →
-      ∀ (nf : Bool), TG s { t with pc := pc, notified := nf } := by
-    intro s t pc hk hi h1 h2 h3 nf
-    refine TG.of (fun e h => by simp [hk] at h) (fun _ => hk) (fun h => by simp [hi] at h)
-      (fun w e h => absurd h (h1 w e)) (fun es fs h => absurd h (h2 es fs)) (fun h0 w e h => absurd h (h3 h0 w e))
   induction fuel with
   | zero =>
     refine ⟨?_, ?_⟩
@@ -33,26 +187,69 @@ theorem gpass_d (ti : Nat) : ∀ fuel,
     · intro s s' t h; rw [dGetX.eq_1] at h; cases h
   | succ n ih =>
     refine ⟨?_, ?_⟩
-    · intro s s' t h ht hk hi hG
+    · intro s s' t h ht hk hi hpe hsq hG
       unfold dLoopX at h
       try simp only [] at h
       split at h
       · cases h
-        exact hG.closeUpd ht _ rfl (by simpa using hTG s t .done hk hi (by simp) (by simp) (by simp) t.notified)
-      · exact ih.2 _ _ _ h ht hk hi hG
-    · intro s s' t h ht hk hi hG
+        refine hG.closeUpd ht _ rfl ?_ (fun h0 w e hp => Or.inl (hpe h0 w e hp)) (fun _ hx => hx.elim)
+        have := TG.atD (s := s) hk hi .done t.notified rfl (by simp) (by simp)
+        simpa using this
+      · rename_i hns
+        refine ih.2 _ _ _ h ht hk hi hpe ?_ hG
+        rcases hsq with h1 | h1
+        · exact absurd h1 hns
+        · exact h1
+    · intro s s' t h ht hk hi hpe hsq hG
       unfold dGetX at h
       try simp only [] at h
       split at h
-      · cases h
-        exact hG.closeUpd ht _ rfl (hTG s t .dWait hk hi (by simp) (by simp) (by simp) false)
-      · split at h
-        · exact ih.1 _ _ _ h (by simpa [State.thread?] using ht) hk hi (hG.frame rfl rfl rfl (fun _ h => Or.inl h))
+      · rename_i hq
+        cases h
+        refine hG.closeUpd ht _ rfl ?_ (fun h0 w e hp => Or.inl (hpe h0 w e hp)) (fun _ hx => hx.elim)
+        exact TG.atD hk hi .dWait false rfl (fun _ _ => Or.inl hq) (fun _ hS => hsq hS)
+      · rename_i item rest hq
+        have hGp := hG.pop ht hk item rest hq
+        have hh1 : ({ s with queue := rest, last := (match s.last with
+              | some l => if item.same l then none else some l
+              | none => none) } : State).hist = s.hist := rfl
+        have hq1 : ({ s with queue := rest, last := (match s.last with
+              | some l => if item.same l then none else some l
+              | none => none) } : State).queue = rest := rfl
+        have ht1 : ({ s with queue := rest, last := (match s.last with
+              | some l => if item.same l then none else some l
+              | none => none) } : State).thread? ti = some t := ht
+        have hpe1 : ∀ h w e, t.pc = .schedStarted h w e → AliveOk ({ s with queue := rest, last := (match s.last with
+              | some l => if item.same l then none else some l
+              | none => none) } : State) e := hpe
+        have hst1 : s.stoppedD = true → ({ s with queue := rest, last := (match s.last with
+              | some l => if item.same l then none else some l
+              | none => none) } : State).stoppedD = true := id
+        have htw : TwoD s → TwoD ({ s with queue := rest, last := (match s.last with
+              | some l => if item.same l then none else some l
+              | none => none) } : State) := id
+        generalize ({ s with queue := rest, last := (match s.last with
+              | some l => if item.same l then none else some l
+              | none => none) } : State) = s1 at h hGp hh1 hq1 ht1 hpe1 hst1 htw
+        split at h
+        · -- the sentinel: back to the loop head, which leaves
+          refine ih.1 _ _ _ h ht1 hk hi hpe1 (Or.inl ?_) hGp
+          exact hst1 (hG.sg.l2 (by rw [hq]; simp))
         · cases h
-          refine GX.closeUpd (t := t) ?_ ?_ _ rfl ?_
-          · exact hG.frame rfl rfl rfl (fun _ h => Or.inl h)
-          · simpa [State.thread?] using ht
-          · exact hTG _ t (.dLock _ _ _) hk hi (by simp) (by simp) (by simp) t.notified
+          rename_i u w v
+          refine GX.closeUpd (t := t) hGp ht1 _ rfl ?_
+            (fun h0 w e hp => Or.inl (hpe1 h0 w e hp)) (fun _ hx => hx.elim)
+          have := TG.atD (s := s1) hk hi (.dLock u w v) t.notified rfl (by simp) (fun _ hS => by
+              rw [hh1] at hS
+              rcases hsq hS with h1 | h1
+              · left
+                rw [hq] at h1
+                rw [hq1]
+                rcases List.mem_cons.mp h1 with h2 | h2
+                · cases h2
+                · exact h2
+              · exact Or.inr (htw h1))
+          simpa using this
 
 end WD.ProofsObs
 
@@ -65,57 +262,66 @@ macro "thr" : tactic => `(tactic| first | exact ht | (simpa using ht) | (simpa [
 structure AllG (fuel : Nat) : Prop where
   fin : ∀ s ti res s' t, finishOpX fuel s ti res = some s' → s.thread? ti = some t → LX s ti (idepth t) →
       (res = "ok" → ∀ op, t.cur = some op → ∀ h w, removes op h w = true → registered s.hist h w = false) →
-      TM t → GX s ti → GQ s'
+      (res = "ok" → t.cur = some .stop → Sent s.hist) →
+      TM t → TS s t → GX s ti NoX → GQ s'
   nxt : ∀ s ti s' t, nextOpX fuel s ti = some s' → s.thread? ti = some t → LX s ti (idepth t) →
-      TM t → GX s ti → GQ s'
+      TM t → TS s t → GX s ti NoX → GQ s'
   sta : ∀ s ti op s' t, startOpX fuel s ti op = some s' → s.thread? ti = some t → t.cur = some op →
-      LX s ti (idepth t) → TM t → GX s ti → GQ s'
+      LX s ti (idepth t) → TM t → TS s t → GX s ti NoX → GQ s'
   ent : ∀ s ti op s' t, enterLockedX fuel s ti op = some s' → s.thread? ti = some t → t.cur = some op →
-      LX s ti (idepth t) → TM t → GX s ti → GQ s'
+      LX s ti (idepth t) → (op = .stop → s.stoppedD = true) → TM t → TS s t → GX s ti NoX → GQ s'
   lck : ∀ s ti op s' t, lockedX fuel s ti op = some s' → s.thread? ti = some t → t.cur = some op →
-      LX s ti (idepth t + 1) → TM t → GX s ti → GQ s'
+      LX s ti (idepth t + 1) → (op = .stop → s.stoppedD = true) → TM t → TS s t → GX s ti NoX → GQ s'
   sfin : ∀ s ti h w e s' t, schedFinishX fuel s ti h w e = some s' → s.thread? ti = some t →
-      (∃ f, t.cur = some (.schedule h w f)) → LX s ti (idepth t + 1) → TM t → GX s ti → (∃ o, s.em? e = some o) → GQ s'
+      (∃ f, t.cur = some (.schedule h w f)) → LX s ti (idepth t + 1) → TM t →
+      (t.kind = .dispatcher → Sent s.hist → QItem.stop ∈ s.queue ∨ TwoD s) →
+      (∀ h' w' e', t.pc = .schedStarted h' w' e' → e' = e ∨ AliveOk s e') →
+      GX s ti NoX → (∃ o, s.em? e = some o) → GQ s'
   ufin : ∀ s ti w s' t, unschedFinishX fuel s ti w = some s' → s.thread? ti = some t →
       t.cur = some (.unschedule w) → (∀ h, registered s.hist h w = false) → LX s ti (idepth t + 1) →
-      TM t → GX s ti → GQ s'
+      TM t → TS s t → GX s ti NoX → GQ s'
   uab : ∀ s ti b s' t, uallBodyX fuel s ti b = some s' → s.thread? ti = some t →
-      t.cur = some (if b then .stop else .unscheduleAll) → LX s ti (idepth t + 1) → TM t → GX s ti → GQ s'
+      t.cur = some (if b then .stop else .unscheduleAll) → LX s ti (idepth t + 1) → (b = true → s.stoppedD = true) →
+      TM t → TS s t → GX s ti NoX → GQ s'
   uajn : ∀ s ti es b s' t, uallJoinNextX fuel s ti es b = some s' → s.thread? ti = some t →
       t.cur = some (if b then .stop else .unscheduleAll) → (∀ h w, registered s.hist h w = false) →
-      LX s ti (idepth t + 1) → TM t → GX s ti → (∀ e ∈ es, Stopped s e) → GQ s'
+      LX s ti (idepth t + 1) → (b = true → s.stoppedD = true) → TM t → TS s t → GX s ti NoX →
+      (∀ e ∈ es, Stopped s e) → (∀ e ∈ s.regEm, Stopped s e) → GQ s'
   stem : ∀ s ti es s' t, startEmittersX fuel s ti es = some s' → s.thread? ti = some t → t.cur = some .start →
-      LX s ti (idepth t) → TM t → GX s ti → GQ s'
+      LX s ti (idepth t) → TM t → TS s t → GX s ti NoX → (∀ e ∈ es, AliveOk s e) → GQ s'
   cit : ∀ s ti s' t, continueIterX fuel s ti = some s' → s.thread? ti = some t → LX s ti (idepth t) →
-      TM t → GX s ti → GQ s'
+      TM t → TS s t → GX s ti NoX → GQ s'
 
-/-- the record left behind by a step that ends inside a call made from a callback or from a client -/
-theorem TG.atCb {s : State} {t : Thread} (hM : TM t) (pc : Pc) (hcb : cbPc pc = true)
-    (hju : ∀ w e, pc = .unschedJoin w e → Stopped s e) (hja : ∀ es fs, pc = .uallJoin es fs → ∀ e ∈ es, Stopped s e)
-    (hsc : ∀ h w e, pc = .schedStarted h w e → ∃ o, s.em? e = some o) :
-    TG s { t with pc := pc } := by
-  refine TG.of hM.ne ?_ (fun _ => Or.inl hcb) hju hja hsc
-  rintro (h | h)
-  · exact hM.it h
-  · cases pc <;> simp [isDpc, cbPc] at h hcb
+theorem notStop_goodS (p : List Obs) (o : Obs) (h : ∀ res, o ≠ .did .stop res) : GoodAtS p o := by
+  cases o with
+  | did op res =>
+    cases op <;> simp [GoodAtS]
+    exact absurd rfl (h res)
+  | _ => simp [GoodAtS]
 
-/-- ... or at a point where no callback can be running -/
-theorem TG.atPlain {s : State} {t : Thread} (hM : TM t) (hi : t.iter = none) (pc : Pc) (hd : isDpc pc = false)
-    (hju : ∀ w e, pc ≠ .unschedJoin w e) (hja : ∀ es fs, pc ≠ .uallJoin es fs) (hsc : ∀ h w e, pc ≠ .schedStarted h w e) :
-    TG s { t with pc := pc } := by
-  refine TG.of hM.ne ?_ (fun h => by simp [hi] at h) (fun w e h => absurd h (hju w e)) (fun es fs h => absurd h (hja es fs))
-    (fun h0 w e h => absurd h (hsc h0 w e))
-  rintro (h | h)
-  · simp [hi] at h
-  · simp [hd] at h
+end WD.ProofsObs
 
-theorem kinds_updThread_pc (s : State) (ti : Nat) (f : Thread → Thread) (hf : ∀ t, (f t).kind = t.kind) :
-    kinds (s.updThread ti f) = kinds s := by
-  rw [updThread_eq]
-  split
-  · rename_i t ht
-    exact kinds_setThread ht _ (hf t)
-  · rfl
+namespace WD.ProofsObs
+open WD WD.Obs
+
+theorem putStop_sent (s : State) : Sent (s.putItem (fun _ => QItem.stop) (fun _ => Obs.enqStop) Obs.dropStop).hist := by
+  rcases putItem_cases s (fun _ => QItem.stop) (fun _ => Obs.enqStop) Obs.dropStop with h | h | ⟨d, h⟩
+  · rw [h]; exact Or.inr (by simp [State.log])
+  · rw [h]; exact Or.inl (by simp [putBase, State.log])
+  · rw [h, updThread_hist]; exact Or.inl (by simp [putBase, State.log])
+
+theorem Rel.putItem (s : State) (mk : Nat → QItem) (onEnq : Nat → Obs) (onDrop : Obs) :
+    EmMono s (s.putItem mk onEnq onDrop) ∧ KP s (s.putItem mk onEnq onDrop) ∧
+    (∀ e, AliveOk s e → AliveOk (s.putItem mk onEnq onDrop) e) := by
+  have he := putItem_emObjs s mk onEnq onDrop
+  have hr : (s.putItem mk onEnq onDrop).regEm = s.regEm := by
+    rcases putItem_cases s mk onEnq onDrop with h | h | ⟨d, h⟩
+    · rw [h]; rfl
+    · rw [h]; rfl
+    · rw [h, updThread_eq]; split <;> rfl
+  refine ⟨EmMono.of_eq he, KP.putItem s mk onEnq onDrop, ?_⟩
+  rintro e ⟨o, ho, h⟩
+  exact ⟨o, by simpa [State.em?, he] using ho, by rw [hr]; exact h⟩
 
 end WD.ProofsObs
 
@@ -131,81 +337,132 @@ theorem allG : ∀ fuel, AllG fuel := by
   | succ n ih =>
     constructor
     · -- finishOp
-      intro s ti res s' t h ht hL hok hM hG
+      intro s ti res s' t h ht hL hok hsent hM hS hG
       unfold finishOpX at h
       simp only [ht] at h
       cases hc : t.cur with
       | none =>
         simp only [hc] at h
-        refine ih.nxt _ _ _ _ h (setThread_thread?_self _ (by thr)) ?_ (hM.same rfl rfl) ?_
+        refine ih.nxt _ _ _ _ h (setThread_thread?_self _ (by thr)) ?_ (hM.same rfl rfl) ?_ ?_
         · exact (hL.log (.ret t.label t.idx res) trivial (Or.inl rfl)).setThreadMine _
-        · exact (hG.log _).setThreadMine (t := t) (by thr) _ rfl
+        · exact hS.rel ((Rel.log s _ rfl).trans (Rel.setThread (t := t) (by thr) _ rfl)) rfl rfl
+        · exact (hG.log _ rfl (by simp [GoodAtS])).setThreadMine (t := t) (by thr) _ rfl rfl
       | some op =>
         simp only [hc] at h
-        refine ih.nxt _ _ _ _ h (setThread_thread?_self _ (by thr)) ?_ (hM.same rfl rfl) ?_
+        refine ih.nxt _ _ _ _ h (setThread_thread?_self _ (by thr)) ?_ (hM.same rfl rfl) ?_ ?_
         · exact ((hL.log (.did op res) (fun e h w hr => hok e op hc h w hr) (Or.inl rfl)).log
             (.ret t.label t.idx res) trivial (Or.inl rfl)).setThreadMine _
-        · exact ((hG.log _).log _).setThreadMine (t := t) (by thr) _ rfl
+        · exact hS.rel (((Rel.log s _ rfl).trans (Rel.log _ _ rfl)).trans (Rel.setThread (t := t) (by thr) _ rfl)) rfl rfl
+        · refine ((hG.log (.did op res) rfl ?_).log _ rfl (by simp [GoodAtS])).setThreadMine (t := t) (by thr) _ rfl rfl
+          cases op <;> simp [GoodAtS]
+          exact fun hr => hsent hr hc
     · -- nextOp
-      intro s ti s' t h ht hL hM hG
+      intro s ti s' t h ht hL hM hS hG
       unfold nextOpX at h
       simp only [ht] at h
       split at h
       · rename_i op rest hops
         exact ih.sta _ _ _ _ _ h (setThread_thread?_self _ ht) rfl (hL.setThreadMine _) (hM.same rfl rfl)
-          (hG.setThreadMine ht _ rfl)
+          (hS.rel (Rel.setThread ht _ rfl) rfl rfl) (hG.setThreadMine ht _ rfl rfl)
       · split at h
-        · exact ih.cit _ _ _ _ h ht hL hM hG
+        · exact ih.cit _ _ _ _ h ht hL hM hS hG
         · cases h
           rename_i hnd
           have hi : t.iter = none := by
             cases hit : t.iter with
             | none => rfl
             | some x => exact absurd (hM.it (by simp [hit])) (by intro hk; exact hnd hk)
-          exact hG.close ht _ rfl (TG.atPlain hM hi .done rfl (by simp) (by simp) (by simp))
+          exact hG.close ht _ rfl (TG.atPlain hM hi .done rfl (by simp) (by simp) (by simp) (by simp) (by simp) (by simp))
+            (fun h0 w e hp => Or.inl (hS.pe h0 w e hp)) (fun _ hx => hx.elim)
     · -- startOp
-      intro s ti op s' t h ht hc hL hM hG
+      intro s ti op s' t h ht hc hL hM hS hG
       unfold startOpX at h
       try simp only [] at h
       split at h
-      · exact ih.stem _ _ _ _ _ h ht hc hL hM hG
-      · split at h
-        · exact ih.fin _ _ _ _ _ h ht hL (notok (by decide)) hM hG
+      · refine ih.stem _ _ _ _ _ h ht hc hL hM hS hG ?_
+        intro e he
+        obtain ⟨o, ho⟩ := hG.sg.reg e he
+        exact ⟨o, ho, Or.inr he⟩
+      · have hns : "raised:RuntimeError" = "ok" → t.cur = some Op.stop → Sent s.hist := notok (by decide)
+        split at h
+        · exact ih.fin _ _ _ _ _ h ht hL (notok (by decide)) hns hM hS hG
         · split at h
-          · exact ih.fin _ _ _ _ _ h ht hL (notok (by decide)) hM hG
+          · exact ih.fin _ _ _ _ _ h ht hL (notok (by decide)) hns hM hS hG
           · cases h
             rename_i d hdx hne
             -- a dispatcher (inside a callback) that joins "the" dispatcher joins another one: two exist
-            refine hG.closeUpd ht _ rfl (TG.of hM.ne ?_ ?_ (by simp) (by simp) (by simp))
-            · rintro (hi | hi)
-              · exact hM.it hi
-              · simp [isDpc] at hi
-            · intro hi
-              right
-              refine ⟨rfl, ?_⟩
+            refine hG.closeUpd ht _ rfl ?_ (fun h0 w e hp => Or.inl (hS.pe h0 w e hp)) (fun _ hx => hx.elim)
+            have htwo : t.iter.isSome = true → TwoD s := by
+              intro hi
               have hk := hM.it hi
               obtain ⟨td, htd, hkd⟩ := hG.sg.didx d hdx
-              have h1 : (kinds s)[ti]? = some Kind.dispatcher := by
-                have ht' : s.threads[ti]? = some t := ht
-                simp [kinds, ht', hk]
-              have h2 : (kinds s)[d]? = some Kind.dispatcher := by simp [kinds, htd, hkd]
-              exact ⟨d, ti, hne, h2, h1⟩
-      · exact ih.ent _ _ _ _ _ h ht hc (hL.frame rfl rfl rfl rfl) hM (hG.frame rfl rfl rfl (fun _ h => Or.inl h))
+              have ht' : s.threads[ti]? = some t := ht
+              exact ⟨d, ti, hne, by rw [mem_kinds_of_thread htd, hkd], by rw [mem_kinds_of_thread ht', hk]⟩
+            exact {
+              disp := by
+                rintro (hi | hi)
+                · exact hM.it hi
+                · simp [isDpc] at hi
+              cb := fun hi => Or.inr ⟨rfl, htwo hi⟩
+              epcE := fun e he => absurd he (hM.ne e)
+              epcO := by rintro (h1 | h1) <;> cases h1
+              dj := fun hk hi => by
+                have h1 := hM.di hk
+                have hi' : t.iter = none := hi
+                rw [hi'] at h1; cases h1
+              joinU := fun w e h1 => by cases h1
+              joinA := fun es fs h1 => by cases h1
+              sched := fun h0 w e h1 => by cases h1
+              emObj := fun e he => absurd he (hM.ne e)
+              startEs := fun es h1 => by cases h1
+              regS := fun es fs h1 => by cases h1
+              q1 := fun h1 _ => by cases h1
+              sq := fun hk _ hSent => hS.sq hk hSent
+              stopA := fun h1 => by cases h1
+              stopJ := fun es h1 => by cases h1 }
+      · refine ih.ent _ _ _ _ _ h ht hc (hL.frame rfl rfl rfl rfl) (fun _ => rfl) hM ?_ hG.setStopped
+        exact hS.frame rfl rfl rfl rfl rfl
       · simp only [ht] at h
         cases h
-        refine GX.close (t := t) ?_ ?_ _ rfl ?_
-        · exact (GX.frame (s' := if s.lockOwner = some ti then { s with lockOwner := none, lockCount := 0 } else s) hG
-            (by split <;> rfl) (by split <;> rfl) (by split <;> rfl) (fun _ h => Or.inl (by split at h <;> exact h))).log _
-        · simp only [log_thread?]; split <;> exact ht
-        · refine TG.of hM.ne ?_ ?_ ?_ ?_ ?_ <;> simp [isDpc]
-      · exact ih.ent _ _ _ _ _ h ht hc hL hM hG
+        have hG1 : GX (if s.lockOwner = some ti then { s with lockOwner := none, lockCount := 0 } else s) ti NoX := by
+          split
+          · exact hG.frame rfl rfl rfl rfl rfl rfl rfl rfl
+          · exact hG
+        have ht1 : (if s.lockOwner = some ti then { s with lockOwner := none, lockCount := 0 } else s).thread? ti = some t := by
+          split <;> exact ht
+        have hpe1 : ∀ h0 w e, t.pc = .schedStarted h0 w e → AliveOk (if s.lockOwner = some ti then { s with lockOwner := none, lockCount := 0 } else s) e := by
+          intro h0 w e hp
+          have := hS.pe h0 w e hp
+          split <;> exact this
+        generalize (if s.lockOwner = some ti then { s with lockOwner := none, lockCount := 0 } else s) = s1 at hG1 ht1 hpe1
+        refine GX.close (t := t) (hG1.log (.died t.name) rfl (by simp [GoodAtS])) (by rw [log_thread?]; exact ht1) _ rfl ?_
+          (fun h0 w e hp => Or.inl ((Rel.log s1 _ rfl).am e (hpe1 h0 w e hp))) (fun _ hx => hx.elim)
+        exact {
+          disp := by rintro (hi | hi) <;> simp [isDpc] at hi
+          cb := fun hi => by simp at hi
+          epcE := fun e he => absurd he (hM.ne e)
+          epcO := by rintro (h1 | h1) <;> cases h1
+          dj := fun _ _ => rfl
+          joinU := fun w e h1 => by cases h1
+          joinA := fun es fs h1 => by cases h1
+          sched := fun h0 w e h1 => by cases h1
+          emObj := fun e he => absurd he (hM.ne e)
+          startEs := fun es h1 => by cases h1
+          regS := fun es fs h1 => by cases h1
+          q1 := fun h1 _ => by cases h1
+          sq := fun _ hp _ => absurd rfl hp
+          stopA := fun h1 => by cases h1
+          stopJ := fun es h1 => by cases h1 }
+      · rename_i hns1 hns2 hns3 hns4
+        exact ih.ent _ _ _ _ _ h ht hc hL (fun hop => absurd hop (by intro e; subst e; exact hns3 rfl)) hM hS hG
     · -- enterLocked
-      intro s ti op s' t h ht hc hL hM hG
+      intro s ti op s' t h ht hc hL hst hM hS hG
       unfold enterLockedX at h
       try simp only [] at h
       split at h
       · rename_i ho
-        exact ih.lck _ _ _ _ _ h ht hc (hL.acquire ho) hM (hG.frame rfl rfl rfl (fun _ h => Or.inl h))
+        exact ih.lck _ _ _ _ _ h ht hc (hL.acquire ho) hst hM (hS.frame rfl rfl rfl rfl rfl)
+          (hG.frame rfl rfl rfl rfl rfl rfl rfl rfl)
       · cases h
         rename_i ho
         have hi : t.iter = none := by
@@ -214,9 +471,10 @@ theorem allG : ∀ fuel, AllG fuel := by
           | some x =>
             have : 0 < idepth t := by simp [idepth, hit]
             exact absurd (hL.mine.2 this).1 ho
-        exact hG.closeUpd ht _ rfl (TG.atPlain hM hi (.acq op) rfl (by simp) (by simp) (by simp))
+        exact hG.closeUpd ht _ rfl (TG.atPlain hM hi (.acq op) rfl (by simp) (by simp) (by simp) (by simp) (by simp) (fun hp => hst (by cases hp; rfl)))
+          (fun h0 w e hp => Or.inl (hS.pe h0 w e hp)) (fun _ hx => hx.elim)
     · -- locked
-      intro s ti op s' t h ht hc hL hM hG
+      intro s ti op s' t h ht hc hL hst hM hS hG
       unfold lockedX at h
       try simp only [] at h
       split at h
@@ -224,166 +482,322 @@ theorem allG : ∀ fuel, AllG fuel := by
         rename_i h0 w fault
         have hnr : ∀ op', t.cur = some op' → ∀ h' w', removes op' h' w' = true → False := by
           intro op' hc' h' w' hr; rw [hc] at hc'; cases hc'; simp [removes] at hr
+        have hns : ∀ (r : String) (s0 : State), (r = "ok" → t.cur = some Op.stop → Sent s0.hist) := by
+          intro r s0 _ hcs; rw [hc] at hcs; cases hcs
         split at h
-        · refine ih.fin _ _ _ _ _ h (by thr) ?_ (fun _ op' hc' h' w' hr => (hnr op' hc' h' w' hr).elim) hM ?_
+        · refine ih.fin _ _ _ _ _ h (by thr) ?_ (fun _ op' hc' h' w' hr => (hnr op' hc' h' w' hr).elim) (hns _ _) hM ?_ ?_
           · exact LX.release (hL.hist_step (o := .reg h0 w) rfl rfl rfl rfl trivial (Or.inr (Nat.succ_pos _)))
-          · exact GX.release (hG.frame rfl rfl rfl (fun _ h => Or.inl h))
+          · exact TS.release (hS.frameLog rfl rfl rfl rfl (.reg h0 w) rfl rfl)
+          · exact GX.release (hG.frameLog rfl rfl rfl rfl rfl rfl rfl (.reg h0 w) rfl rfl (by simp [GoodAtS]))
         · split at h
-          · exact ih.fin _ _ _ _ _ h (by thr) hL.release (notok (by decide)) hM hG.release
-          · split at h
+          · exact ih.fin _ _ _ _ _ h (by thr) hL.release (notok (by decide)) (hns _ _) hM hS.release hG.release
+          · have hG1 := hG.appendEm ({ wid := w, script := (alookup w s.emitScripts).getD [] } : EmObj) rfl
+            have hR1 : Rel s ({ s with emObjs := s.emObjs ++ [({ wid := w, script := (alookup w s.emitScripts).getD [] } : EmObj)] } : State) := by
+              have hm : EmMono s ({ s with emObjs := s.emObjs ++ [({ wid := w, script := (alookup w s.emitScripts).getD [] } : EmObj)] } : State) := by
+                intro e x hx
+                refine ⟨x, ?_, id, id⟩
+                have hx' : s.emObjs[e]? = some x := hx
+                have := (List.getElem?_eq_some_iff.mp hx').1
+                show (s.emObjs ++ [_])[e]? = some x
+                rw [List.getElem?_append_left this]; exact hx'
+              refine ⟨hm, KP.of_eq rfl, ?_, ?_, rfl, id, id⟩
+              · rintro x ⟨y, hy, hh⟩
+                obtain ⟨y', hy', hs', _⟩ := hm x y hy
+                exact ⟨y', hy', hh.imp hs' id⟩
+              · intro hh x hx; exact (hh x hx).mono hm
+            have hnew : ({ s with emObjs := s.emObjs ++ [({ wid := w, script := (alookup w s.emitScripts).getD [] } : EmObj)] } : State).em? s.emObjs.length =
+                some ({ wid := w, script := (alookup w s.emitScripts).getD [] } : EmObj) := by simp [State.em?]
+            split at h
             · split at h
-              · exact ih.fin _ _ _ _ _ h (by thr) (LX.release (hL.frame rfl rfl rfl rfl)) (notok (by decide)) hM
-                  (GX.release (hG.appendEm _ rfl))
+              · exact ih.fin _ _ _ _ _ h (by thr) (LX.release (hL.frame rfl rfl rfl rfl)) (notok (by decide)) (hns _ _) hM
+                  (TS.release (hS.rel hR1 rfl rfl)) (GX.release hG1)
               · cases h
-                have hG1 := hG.appendEm ({ wid := w, script := (alookup w s.emitScripts).getD [] } : EmObj) rfl
-                refine GX.closeUpd (t := t) ?_ ?_ _ rfl ?_
-                · exact hG1.linkEm _ _
+                have hG2 := (hG1.exempt (fun x => x = s.emObjs.length)).linkEm (t := t) (by thr) ("E" ++ toString w) s.emObjs.length
+                  ⟨_, hnew, Or.inr (Or.inr rfl)⟩
+                have hS2 : TS ((({ s with emObjs := s.emObjs ++ [({ wid := w, script := (alookup w s.emitScripts).getD [] } : EmObj)] } : State).spawn ("E" ++ toString w) (.emitter s.emObjs.length)).1.updEm s.emObjs.length
+                    (fun o => { o with started := true, tidx := some (({ s with emObjs := s.emObjs ++ [({ wid := w, script := (alookup w s.emitScripts).getD [] } : EmObj)] } : State).spawn ("E" ++ toString w) (.emitter s.emObjs.length)).2 })) t := by
+                  refine ⟨fun hk hSent => ?_, fun h1 w1 e1 hpc => ?_⟩
+                  · rw [updEm_queue, updEm_hist] at *
+                    exact (hS.sq hk hSent).imp id (fun x => x.mono (KP.trans (KP.spawn _ _ _) (KP.of_eq (updEm_threads _ _ _))))
+                  · obtain ⟨y, hy, hal⟩ := hR1.am e1 (hS.pe h1 w1 e1 hpc)
+                    have hm2 := EmMono.updEm (({ s with emObjs := s.emObjs ++ [({ wid := w, script := (alookup w s.emitScripts).getD [] } : EmObj)] } : State).spawn ("E" ++ toString w) (.emitter s.emObjs.length)).1 s.emObjs.length
+                      (fun o => { o with started := true, tidx := some (({ s with emObjs := s.emObjs ++ [({ wid := w, script := (alookup w s.emitScripts).getD [] } : EmObj)] } : State).spawn ("E" ++ toString w) (.emitter s.emObjs.length)).2 }) (fun o hh => hh) (fun o _ => rfl)
+                    obtain ⟨y', hy', hs', _⟩ := hm2 e1 y hy
+                    exact ⟨y', hy', hal.imp hs' (fun z => by rw [updEm_regEm]; exact z)⟩
+                refine GX.closeUpd (t := t) hG2 ?_ _ rfl ?_ (fun h1 w1 e1 hpc => Or.inl (hS2.pe h1 w1 e1 hpc)) ?_
                 · rw [updEm_thread?]; exact spawn_thread? _ _ ht
-                · refine TG.atCb hM _ rfl (by simp) (by simp) ?_
+                · refine TG.atCb hM hS2 _ rfl (by simp) (by simp) ?_ (by simp) (by simp) (by simp)
                   intro h1 w1 e1 hpc
                   cases hpc
-                  have hx : (({ s with emObjs := s.emObjs ++ [({ wid := w, script := (alookup w s.emitScripts).getD [] } : EmObj)] } : State).spawn ("E" ++ toString w) (.emitter s.emObjs.length)).1.em? s.emObjs.length = some ({ wid := w, script := (alookup w s.emitScripts).getD [] } : EmObj) := by
-                    simp [State.em?, State.spawn]
-                  obtain ⟨o', ho', _⟩ := EmMono.updEm _ s.emObjs.length (fun o => { o with started := true, tidx := some (({ s with emObjs := s.emObjs ++ [({ wid := w, script := (alookup w s.emitScripts).getD [] } : EmObj)] } : State).spawn ("E" ++ toString w) (.emitter s.emObjs.length)).2 }) (fun o h => h) _ _ hx
-                  exact ⟨o', ho'⟩
-            · refine ih.sfin _ _ _ _ _ _ _ h ht ⟨fault, hc⟩ (hL.frame rfl rfl rfl rfl) hM (hG.appendEm _ rfl) ?_
-              exact ⟨({ wid := w, script := (alookup w s.emitScripts).getD [] } : EmObj), by simp [State.em?]⟩
+                  refine ⟨({ wid := w, script := (alookup w s.emitScripts).getD [], started := true, tidx := some s.threads.length } : EmObj), ?_⟩
+                  rw [em?_updEm]; simp [spawn_em?, hnew]
+                · intro e1 hx
+                  subst hx
+                  exact ⟨h0, w, rfl⟩
+            · refine ih.sfin _ _ _ _ _ _ _ h ht ⟨fault, hc⟩ (hL.frame rfl rfl rfl rfl) hM ?_ ?_ hG1 ⟨_, hnew⟩
+              · intro hk hSent; exact hS.sq hk hSent
+              · intro h1 w1 e1 hpc; exact Or.inr (hR1.am e1 (hS.pe h1 w1 e1 hpc))
       · -- unschedule
         rename_i w
+        have hns : ∀ (r : String) (s0 : State), (r = "ok" → t.cur = some Op.stop → Sent s0.hist) := by
+          intro r s0 _ hcs; rw [hc] at hcs; cases hcs
         split at h
-        · exact ih.fin _ _ _ _ _ h (by thr) hL.release (notok (by decide)) hM hG.release
+        · exact ih.fin _ _ _ _ _ h (by thr) hL.release (notok (by decide)) (hns _ _) hM hS.release hG.release
         · split at h
-          · exact ih.fin _ _ _ _ _ h (by thr) hL.release (notok (by decide)) hM hG.release
+          · exact ih.fin _ _ _ _ _ h (by thr) hL.release (notok (by decide)) (hns _ _) hM hS.release hG.release
           · rename_i e he hnone
             have hL2 : LX ((({ s with handlers := aerase w s.handlers, regEm := s.regEm.filter (· != e) } : State).log (.unregW w)).updEm e (fun o => { o with stopped := true })) ti (idepth t + 1) :=
               LX.frame (hL.hist_step (o := .unregW w) (s' := (({ s with handlers := aerase w s.handlers, regEm := s.regEm.filter (· != e) } : State).log (.unregW w))) rfl rfl rfl rfl trivial (Or.inl rfl))
                 (by simp) (by simp) (by simp) (by simp)
             have hreg : ∀ h', registered ((({ s with handlers := aerase w s.handlers, regEm := s.regEm.filter (· != e) } : State).log (.unregW w)).updEm e (fun o => { o with stopped := true })).hist h' w = false := by
               intro h'; simp [registered_snoc, regStep]
-            have hG1 : GX (({ s with handlers := aerase w s.handlers, regEm := s.regEm.filter (· != e) } : State).log (.unregW w)) ti :=
-              hG.frame rfl rfl rfl (fun x hx => Or.inl (List.mem_filter.mp hx).1)
-            have hG2 := hG1.updEm e (fun o => { o with stopped := true }) (fun o h => rfl) (fun o => rfl)
+            have hG2 := hG.unregStop e (({ s with handlers := aerase w s.handlers, regEm := s.regEm.filter (· != e) } : State).log (.unregW w))
+              rfl rfl rfl rfl rfl rfl rfl (.unregW w) rfl rfl (by simp [GoodAtS])
             obtain ⟨o0, ho0⟩ := emitterOf_exists he
-            have hst : Stopped ((({ s with handlers := aerase w s.handlers, regEm := s.regEm.filter (· != e) } : State).log (.unregW w)).updEm e (fun o => { o with stopped := true })) e :=
+            have hst2 : Stopped ((({ s with handlers := aerase w s.handlers, regEm := s.regEm.filter (· != e) } : State).log (.unregW w)).updEm e (fun o => { o with stopped := true })) e :=
               ⟨{ o0 with stopped := true }, by
                 rw [em?_updEm]
                 have : (({ s with handlers := aerase w s.handlers, regEm := s.regEm.filter (· != e) } : State).log (.unregW w)).em? e = some o0 := ho0
                 simp [this], rfl⟩
+            -- what the stepping thread knows, in the new state
+            have hS2 : TS ((({ s with handlers := aerase w s.handlers, regEm := s.regEm.filter (· != e) } : State).log (.unregW w)).updEm e (fun o => { o with stopped := true })) t := by
+              have hm : EmMono s ((({ s with handlers := aerase w s.handlers, regEm := s.regEm.filter (· != e) } : State).log (.unregW w)).updEm e (fun o => { o with stopped := true })) :=
+                EmMono.updEm (({ s with handlers := aerase w s.handlers, regEm := s.regEm.filter (· != e) } : State).log (.unregW w)) e
+                  (fun o => { o with stopped := true }) (fun _ _ => rfl) (fun _ hh => hh)
+              refine ⟨fun hk hSent => ?_, fun h1 w1 e1 hpc => ?_⟩
+              · rw [updEm_queue, updEm_hist] at *
+                have hSent' : Sent s.hist := by
+                  rcases (Sent_snoc _ _).mp hSent with hh | hh
+                  · exact hh
+                  · cases hh
+                exact (hS.sq hk hSent').imp id (fun x => x.mono (KP.of_eq (by rw [updEm_threads]; rfl)))
+              · obtain ⟨y, hy, hal⟩ := hS.pe h1 w1 e1 hpc
+                by_cases hx : e1 = e
+                · subst hx
+                  obtain ⟨y', hy', hs'⟩ := hst2
+                  exact ⟨y', hy', Or.inl hs'⟩
+                · obtain ⟨y', hy', hs', _⟩ := hm e1 y hy
+                  refine ⟨y', hy', hal.imp hs' (fun z => ?_)⟩
+                  rw [updEm_regEm]
+                  show e1 ∈ s.regEm.filter (· != e)
+                  simp [List.mem_filter, z, hx]
             split at h
             · cases h
-              refine hG2.closeUpd (by thr) _ rfl (TG.atCb hM _ rfl ?_ (by simp) (by simp))
-              intro w' e' hpc; cases hpc; exact hst
-            · exact ih.ufin _ _ _ _ _ h (by thr) hc hreg hL2 hM hG2
+              refine hG2.closeUpd (by thr) _ rfl (TG.atCb hM hS2 _ rfl ?_ (by simp) (by simp) (by simp) (by simp) (by simp))
+                (fun h1 w1 e1 hp => Or.inl (hS2.pe h1 w1 e1 hp)) (fun _ hx => hx.elim)
+              intro w' e' hpc; cases hpc; exact hst2
+            · exact ih.ufin _ _ _ _ _ h (by thr) hc hreg hL2 hM hS2 hG2
       · -- addHandler
         rename_i h0 w
-        refine ih.fin _ _ _ _ _ h (by thr) ?_ ?_ hM ?_
+        refine ih.fin _ _ _ _ _ h (by thr) ?_ ?_ ?_ hM ?_ ?_
         · exact LX.release (hL.hist_step (o := .reg h0 w) rfl rfl rfl rfl trivial (Or.inr (Nat.succ_pos _)))
         · intro _ op' hc' h' w' hr; rw [hc] at hc'; cases hc'; simp [removes] at hr
-        · exact GX.release (hG.frame rfl rfl rfl (fun _ h => Or.inl h))
+        · intro _ hcs; rw [hc] at hcs; cases hcs
+        · exact TS.release (hS.frameLog rfl rfl rfl rfl (.reg h0 w) rfl rfl)
+        · exact GX.release (hG.frameLog rfl rfl rfl rfl rfl rfl rfl (.reg h0 w) rfl rfl (by simp [GoodAtS]))
       · -- removeHandler
         rename_i h0 w
+        have hns : ∀ (r : String) (s0 : State), (r = "ok" → t.cur = some Op.stop → Sent s0.hist) := by
+          intro r s0 _ hcs; rw [hc] at hcs; cases hcs
         split at h
-        · refine ih.fin _ _ _ _ _ h (by thr) ?_ ?_ hM ?_
+        · refine ih.fin _ _ _ _ _ h (by thr) ?_ ?_ (hns _ _) hM ?_ ?_
           · exact LX.release (hL.hist_step (o := .unreg h0 w) rfl rfl rfl rfl trivial (Or.inl rfl))
           · intro _ op' hc' h' w' hr; rw [hc] at hc'; cases hc'
             simp [removes] at hr
             obtain ⟨e1, e2⟩ := hr; subst e1; subst e2
             simp [registered_snoc, regStep]
-          · exact GX.release (hG.frame rfl rfl rfl (fun _ h => Or.inl h))
-        · exact ih.fin _ _ _ _ _ h (by thr) (LX.release (hL.frame rfl rfl rfl rfl)) (notok (by decide)) hM
-            (GX.release (hG.frame rfl rfl rfl (fun _ h => Or.inl h)))
-      · exact ih.uab _ _ _ _ _ h ht (by simpa using hc) hL hM hG
-      · exact ih.uab _ _ _ _ _ h ht (by simpa using hc) hL hM hG
+          · exact TS.release (hS.frameLog rfl rfl rfl rfl (.unreg h0 w) rfl rfl)
+          · exact GX.release (hG.frameLog rfl rfl rfl rfl rfl rfl rfl (.unreg h0 w) rfl rfl (by simp [GoodAtS]))
+        · exact ih.fin _ _ _ _ _ h (by thr) (LX.release (hL.frame rfl rfl rfl rfl)) (notok (by decide)) (hns _ _) hM
+            (TS.release (hS.frame rfl rfl rfl rfl rfl))
+            (GX.release (hG.frame rfl rfl rfl rfl rfl rfl rfl rfl))
+      · exact ih.uab _ _ _ _ _ h ht (by simpa using hc) hL (fun hb => by cases hb) hM hS hG
+      · exact ih.uab _ _ _ _ _ h ht (by simpa using hc) hL (fun _ => hst rfl) hM hS hG
       · cases h
     · -- schedFinish
-      intro s ti h0 w e s' t h ht hc hL hM hG hex
+      intro s ti h0 w e s' t h ht hc hL hM hsq hpe hG hex
       unfold schedFinishX at h
       try simp only [] at h
-      refine ih.fin _ _ _ _ _ h (by thr) ?_ ?_ hM ?_
+      have hmem : ∀ x, x ∈ ((s.regEm ++ [e]).mergeSort (fun a b =>
+          ((s.em? a).map (·.wid)).getD 0 ≤ ((s.em? b).map (·.wid)).getD 0)) ↔ (x ∈ s.regEm ∨ x = e) := by
+        intro x; rw [List.mem_mergeSort]; simp
+      have hno : ∀ (j : Nat) (tj : Thread), j ≠ ti → s.threads[j]? = some tj → ∀ es fs, tj.pc ≠ .uallJoin es fs := by
+        intro j tj hj hjt es fs hp
+        have hz := hL.others_idle (Nat.succ_pos _) hj hjt
+        have := depth_zero_holds hz
+        rw [hp] at this; cases this
+      have hG1 := hG.addReg e hex
+        (({ s with regEm := (s.regEm ++ [e]).mergeSort (fun a b => ((s.em? a).map (·.wid)).getD 0 ≤ ((s.em? b).map (·.wid)).getD 0),
+                   handlers := ainsert w (insertSorted h0 (s.handlersOf w)) s.handlers,
+                   watches := insertSorted w s.watches } : State).log (.reg h0 w))
+        rfl rfl rfl hmem rfl rfl rfl (.reg h0 w) rfl rfl (by simp [GoodAtS]) hno
+      refine ih.fin _ _ _ _ _ h (by thr) ?_ ?_ ?_ hM ?_ (GX.release hG1)
       · exact LX.release (hL.hist_step (o := .reg h0 w) rfl rfl rfl rfl trivial (Or.inr (Nat.succ_pos _)))
       · obtain ⟨f, hc⟩ := hc
         intro _ op' hc' h' w' hr; rw [hc] at hc'; cases hc'; simp [removes] at hr
-      · refine GX.release (hG.frame rfl rfl rfl ?_)
-        intro x hx
-        simp only [State.log] at hx
-        have hx' := (List.mem_mergeSort).mp hx
-        rcases List.mem_append.mp hx' with h1 | h1
-        · exact Or.inl h1
-        · simp at h1; subst h1; exact Or.inr hex
+      · obtain ⟨f, hc⟩ := hc
+        intro _ hcs; rw [hc] at hcs; cases hcs
+      · apply TS.release
+        refine ⟨fun hk hSent => ?_, fun h1 w1 e1 hpc => ?_⟩
+        · have hSent' : Sent s.hist := by
+            have hS' : Sent (s.hist ++ [.reg h0 w]) := hSent
+            rcases (Sent_snoc _ _).mp hS' with hh | hh
+            · exact hh
+            · cases hh
+          exact hsq hk hSent'
+        · rcases hpe h1 w1 e1 hpc with hx | hx
+          · subst hx
+            obtain ⟨y, hy⟩ := hex
+            exact ⟨y, hy, Or.inr ((hmem e1).mpr (Or.inr rfl))⟩
+          · obtain ⟨y, hy, hal⟩ := hx
+            exact ⟨y, hy, hal.imp id (fun z => (hmem e1).mpr (Or.inl z))⟩
     · -- unschedFinish
-      intro s ti w s' t h ht hc hreg hL hM hG
+      intro s ti w s' t h ht hc hreg hL hM hS hG
       unfold unschedFinishX at h
       try simp only [] at h
+      have hns : ∀ (r : String) (s0 : State), (r = "ok" → t.cur = some Op.stop → Sent s0.hist) := by
+        intro r s0 _ hcs; rw [hc] at hcs; cases hcs
       split at h
-      · refine ih.fin _ _ _ _ _ h (by thr) (LX.release (hL.frame rfl rfl rfl rfl)) ?_ hM
-          (GX.release (hG.frame rfl rfl rfl (fun _ h => Or.inl h)))
+      · refine ih.fin _ _ _ _ _ h (by thr) (LX.release (hL.frame rfl rfl rfl rfl)) ?_ (hns _ _) hM
+          (TS.release (hS.frame rfl rfl rfl rfl rfl)) (GX.release (hG.frame rfl rfl rfl rfl rfl rfl rfl rfl))
         intro _ op' hc' h' w' hr; rw [hc] at hc'; cases hc'
         simp [removes] at hr; subst hr
         simpa using hreg h'
-      · exact ih.fin _ _ _ _ _ h (by thr) hL.release (notok (by decide)) hM hG.release
+      · exact ih.fin _ _ _ _ _ h (by thr) hL.release (notok (by decide)) (hns _ _) hM hS.release hG.release
     · -- uallBody
-      intro s ti b s' t h ht hc hL hM hG
+      intro s ti b s' t h ht hc hL hst hM hS hG
       unfold uallBodyX at h
       try simp only [] at h
-      refine ih.uajn _ _ _ _ _ _ h ?_ hc ?_ ?_ hM ?_ ?_
+      have hG1 : GX (({ s with handlers := [] } : State).log .unregAll) ti NoX :=
+        hG.frameLog rfl rfl rfl rfl rfl rfl rfl .unregAll rfl rfl (by simp [GoodAtS])
+      have hS1 : TS (({ s with handlers := [] } : State).log .unregAll) t := hS.frameLog rfl rfl rfl rfl .unregAll rfl rfl
+      have hmono := foldStop_mono (({ s with handlers := [] } : State).log .unregAll) (({ s with handlers := [] } : State).log .unregAll).regEm
+      have hall : ∀ e ∈ ((({ s with handlers := [] } : State).log .unregAll).regEm.foldl (fun acc e => acc.updEm e (fun o => { o with stopped := true })) (({ s with handlers := [] } : State).log .unregAll)).regEm,
+          Stopped ((({ s with handlers := [] } : State).log .unregAll).regEm.foldl (fun acc e => acc.updEm e (fun o => { o with stopped := true })) (({ s with handlers := [] } : State).log .unregAll)) e := by
+        intro e he
+        rw [foldUpdEm_regEm] at he
+        exact foldStop_stopped _ _ e he (hG1.sg.reg e he)
+      refine ih.uajn _ _ _ _ _ _ h ?_ hc ?_ ?_ ?_ hM ?_ ?_ hall hall
       · rw [foldUpdEm_thread?]; exact ht
       · intro h' w'; rw [foldUpdEm_hist]; simp [registered_snoc, regStep]
       · apply LX.foldUpdEm
         exact hL.hist_step (o := .unregAll) rfl rfl rfl rfl trivial (Or.inl rfl)
-      · apply GX.foldUpdEm
-        · exact hG.frame rfl rfl rfl (fun _ h => Or.inl h)
-        · intro o _; rfl
-        · intro o; rfl
-      · intro e he
-        rw [foldUpdEm_regEm] at he
-        exact foldStop_stopped _ _ e he (hG.sg.reg e he)
+      · intro hb
+        have := hst hb
+        have hfs : ∀ (l : List Eid) (s0 : State), (l.foldl (fun acc e => acc.updEm e (fun o => { o with stopped := true })) s0).stoppedD = s0.stoppedD := by
+          intro l
+          induction l with
+          | nil => intro s0; rfl
+          | cons x l ihl => intro s0; simp only [List.foldl_cons]; rw [ihl, updEm_stoppedD]
+        rw [hfs]; exact this
+      · -- what the stepping thread knows survives the stop flags
+        have hfq : ∀ (l : List Eid) (s0 : State), (l.foldl (fun acc e => acc.updEm e (fun o => { o with stopped := true })) s0).queue = s0.queue := by
+          intro l
+          induction l with
+          | nil => intro s0; rfl
+          | cons x l ihl => intro s0; simp only [List.foldl_cons]; rw [ihl, updEm_queue]
+        have hft : ∀ (l : List Eid) (s0 : State), (l.foldl (fun acc e => acc.updEm e (fun o => { o with stopped := true })) s0).threads = s0.threads := by
+          intro l
+          induction l with
+          | nil => intro s0; rfl
+          | cons x l ihl => intro s0; simp only [List.foldl_cons]; rw [ihl, updEm_threads]
+        refine ⟨fun hk hSent => ?_, fun h1 w1 e1 hpc => ?_⟩
+        · rw [hfq, foldUpdEm_hist] at *
+          exact (hS1.sq hk hSent).imp id (fun x => x.mono (KP.of_eq (hft _ _)))
+        · obtain ⟨y, hy, hal⟩ := hS1.pe h1 w1 e1 hpc
+          obtain ⟨y', hy', hs', _⟩ := hmono e1 y hy
+          exact ⟨y', hy', hal.imp hs' (fun z => by rw [foldUpdEm_regEm]; exact z)⟩
+      · exact GX.foldUpdEm hG1 _ _ (fun o _ => rfl) (fun o => rfl)
     · -- uallJoinNext
-      intro s ti es b s' t h ht hc hreg hL hM hG hes
+      intro s ti es b s' t h ht hc hreg hL hst hM hS hG hes hall
       unfold uallJoinNextX at h
       try simp only [] at h
       split at h
       · split at h
         · cases h
-          refine hG.closeUpd ht _ rfl (TG.atCb hM _ rfl (by simp) ?_ (by simp))
-          intro es' fs' hpc e he; cases hpc; exact hes e he
+          refine hG.closeUpd ht _ rfl (TG.atCb hM hS _ rfl (by simp) ?_ (by simp) (by simp) ?_ ?_)
+            (fun h1 w1 e1 hp => Or.inl (hS.pe h1 w1 e1 hp)) (fun _ hx => hx.elim)
+          · intro es' fs' hpc e he; cases hpc; exact hes e he
+          · intro es' fs' _; exact hall
+          · intro es' hpc; cases hpc; exact hst rfl
         · rename_i e rest _
-          exact ih.uajn _ _ _ _ _ _ h ht hc hreg hL hM hG (fun x hx => hes x (List.mem_cons_of_mem _ hx))
+          exact ih.uajn _ _ _ _ _ _ h ht hc hreg hL hst hM hS hG (fun x hx => hes x (List.mem_cons_of_mem _ hx)) hall
       · have hL1 : LX ({ s with regEm := [], watches := [] } : State).release ti (idepth t) :=
           LX.release (hL.frame rfl rfl rfl rfl)
-        have hG1 : GX ({ s with regEm := [], watches := [] } : State).release ti :=
-          GX.release (hG.frame rfl rfl rfl (fun _ h => by cases h))
+        have hG1 : GX ({ s with regEm := [], watches := [] } : State).release ti NoX := GX.release (hG.clearReg hall)
         have ht1 : ({ s with regEm := [], watches := [] } : State).release.thread? ti = some t := by thr
         have hreg1 : ∀ h' w', registered ({ s with regEm := [], watches := [] } : State).release.hist h' w' = false := by
           intro h' w'; simpa using hreg h' w'
-        generalize ({ s with regEm := [], watches := [] } : State).release = s1 at h hL1 ht1 hreg1 hG1
+        have hS1 : TS ({ s with regEm := [], watches := [] } : State).release t := by
+          apply TS.release
+          refine ⟨fun hk hSent => hS.sq hk hSent, fun h1 w1 e1 hpc => ?_⟩
+          obtain ⟨y, hy, hal⟩ := hS.pe h1 w1 e1 hpc
+          rcases hal with hal | hal
+          · exact ⟨y, hy, Or.inl hal⟩
+          · obtain ⟨y', hy', hs'⟩ := hall e1 hal
+            exact ⟨y', hy', Or.inl hs'⟩
+        have hst1 : b = true → ({ s with regEm := [], watches := [] } : State).release.stoppedD = true := by
+          intro hb; have := hst hb
+          unfold State.release; split <;> exact this
+        generalize ({ s with regEm := [], watches := [] } : State).release = s1 at h hL1 ht1 hreg1 hG1 hS1 hst1
         split at h
-        · obtain ⟨t', ht', e1, e2, e3, e4⟩ := putItem_thread? (fun _ => QItem.stop) (fun _ => Obs.enqStop) Obs.dropStop ht1
+        · rename_i hb
+          obtain ⟨t', ht', e1, e2, e3, e4⟩ := putItem_thread? (fun _ => QItem.stop) (fun _ => Obs.enqStop) Obs.dropStop ht1
           have hi : idepth t' = idepth t := by simp [idepth, e2]
-          refine ih.fin _ _ _ _ _ h ht' ?_ ?_ (hM.same e4 e2) (hG1.putItem _ _ _)
+          have hG2 := hG1.putItem (fun _ => QItem.stop) (fun _ => Obs.enqStop) Obs.dropStop (fun p u => ⟨by simp [GoodAtS], by simp [GoodAtS]⟩)
+            (Or.inr ⟨fun _ => rfl, hst1 hb⟩)
+          refine ih.fin _ _ _ _ _ h ht' ?_ ?_ (fun _ _ => putStop_sent s1) (hM.same e4 e2) ?_ hG2
           · rw [hi]; exact hL1.putItem _ _ _ rfl rfl trivial trivial
           · intro _ op' hc' h' w' hr
             rw [putItem_registered _ _ _ _ rfl rfl]; exact hreg1 h' w'
-        · refine ih.fin _ _ _ _ _ h ht1 hL1 ?_ hM hG1
-          intro _ op' hc' h' w' hr; exact hreg1 h' w'
+          · obtain ⟨hm, hkp, ham⟩ := Rel.putItem s1 (fun _ => QItem.stop) (fun _ => Obs.enqStop) Obs.dropStop
+            refine ⟨fun _ _ => Or.inl (putStop_mem hG1.sg.l1), fun h1 w1 x hpc => ?_⟩
+            rw [e1] at hpc
+            exact ham x (hS1.pe h1 w1 x hpc)
+        · refine ih.fin _ _ _ _ _ h ht1 hL1 ?_ ?_ hM hS1 hG1
+          · intro _ op' hc' h' w' hr; exact hreg1 h' w'
+          · rename_i hb
+            intro _ hcs
+            rw [hc] at hcs
+            cases b <;> simp at hcs hb
     · -- startEmitters
-      intro s ti es s' t h ht hc hL hM hG
+      intro s ti es s' t h ht hc hL hM hS hG hes
       unfold startEmittersX at h
       try simp only [] at h
       split at h
       · split at h
         · cases h
-          refine GX.closeUpd (t := t) ?_ ?_ _ rfl ?_
-          · exact hG.linkEm _ _
+          rename_i _ e rest _ o ho
+          have ha := hes e (List.mem_cons_self ..)
+          have hG2 := hG.linkEm (t := t) ht ("E" ++ toString o.wid) e (by
+            obtain ⟨y, hy, hal⟩ := ha
+            exact ⟨y, hy, hal.imp id Or.inl⟩)
+          have hR : ∀ x, AliveOk s x → AliveOk ((s.spawn ("E" ++ toString o.wid) (.emitter e)).1.updEm e (fun o' => { o' with started := true, tidx := some (s.spawn ("E" ++ toString o.wid) (.emitter e)).2 })) x := by
+            rintro x ⟨y, hy, hal⟩
+            have hm2 := EmMono.updEm (s.spawn ("E" ++ toString o.wid) (.emitter e)).1 e
+              (fun o' => { o' with started := true, tidx := some (s.spawn ("E" ++ toString o.wid) (.emitter e)).2 }) (fun _ hh => hh) (fun _ _ => rfl)
+            obtain ⟨y', hy', hs', _⟩ := hm2 x y hy
+            exact ⟨y', hy', hal.imp hs' (fun z => by rw [updEm_regEm]; exact z)⟩
+          have hS2 : TS ((s.spawn ("E" ++ toString o.wid) (.emitter e)).1.updEm e (fun o' => { o' with started := true, tidx := some (s.spawn ("E" ++ toString o.wid) (.emitter e)).2 })) t := by
+            refine ⟨fun hk hSent => ?_, fun h1 w1 x hpc => hR x (hS.pe h1 w1 x hpc)⟩
+            rw [updEm_queue, updEm_hist] at *
+            exact (hS.sq hk hSent).imp id (fun x => x.mono (KP.trans (KP.spawn _ _ _) (KP.of_eq (updEm_threads _ _ _))))
+          refine GX.closeUpd (t := t) hG2 ?_ _ rfl ?_ (fun h1 w1 x hp => Or.inl (hS2.pe h1 w1 x hp)) (fun _ hx => hx.elim)
           · rw [updEm_thread?]; exact spawn_thread? _ _ ht
-          · exact TG.atCb hM _ rfl (by simp) (by simp) (by simp)
+          · refine TG.atCb hM hS2 _ rfl (by simp) (by simp) (by simp) ?_ (by simp) (by simp)
+            intro es' hpc x hx
+            cases hpc
+            exact hR x (hes x (List.mem_cons_of_mem _ hx))
         · cases h
       · cases h
-        refine GX.closeUpd (t := t) ?_ ?_ _ rfl ?_
-        · exact hG.spawnD
-        · exact spawn_thread? "D" .dispatcher ht
-        · exact TG.atCb hM _ rfl (by simp) (by simp) (by simp)
+        have hS2 : TS ({ (s.spawn "D" .dispatcher).1 with dIdx := some (s.spawn "D" .dispatcher).2 } : State) t :=
+          ⟨fun hk hSent => (hS.sq hk hSent).imp id (fun x => x.mono (KP.trans (KP.spawn s "D" .dispatcher) (KP.of_eq rfl))),
+           fun h1 w1 x hpc => hS.pe h1 w1 x hpc⟩
+        refine GX.closeUpd (t := t) hG.spawnD (spawn_thread? "D" .dispatcher ht) _ rfl ?_
+          (fun h1 w1 x hp => Or.inl (hS2.pe h1 w1 x hp)) (fun _ hx => hx.elim)
+        exact TG.atCb hM hS2 _ rfl (by simp) (by simp) (by simp) (by simp) (by simp) (by simp)
     · -- continueIter
-      intro s ti s' t h ht hL hM hG
+      intro s ti s' t h ht hL hM hS hG
       unfold continueIterX at h
       simp only [ht] at h
       split at h
@@ -391,9 +805,17 @@ theorem allG : ∀ fuel, AllG fuel := by
       · rename_i u w v hit
         have hi : idepth t = 1 := by simp [idepth, hit]
         have hk : t.kind = .dispatcher := hM.it (by simp [hit])
-        refine (gpass_d ti n).1 _ _ { t with iter := none } h ?_ hk rfl ?_
+        refine (gpass_d ti n).1 _ _ { t with iter := none } h ?_ hk rfl ?_ (Or.inr ?_) ?_
         · rw [release_thread?]; exact setThread_thread?_self _ (by thr)
-        · exact GX.release ((hG.log _).setThreadMine (t := t) (by thr) _ rfl)
+        · intro h1 w1 x hpc
+          have := hS.pe h1 w1 x hpc
+          exact (Rel.release _).am x ((Rel.setThread (t := t) (by thr) _ rfl).am x ((Rel.log s _ rfl).am x this))
+        · intro hSent
+          have hS3 := (hS.frameLog (s' := s.log (.dispatchEnd u)) rfl rfl rfl rfl (.dispatchEnd u) rfl rfl)
+          have hS4 : TS ((s.log (.dispatchEnd u)).setThread ti { t with iter := none }) t :=
+            hS3.rel (Rel.setThread (t := t) (by thr) _ rfl) rfl rfl
+          exact hS4.release.sq hk hSent
+        · exact GX.release ((hG.log _ rfl (by simp [GoodAtS])).setThreadMine (t := t) (by thr) _ rfl rfl)
       · rename_i u w v h0 rest hit
         have hi : idepth t = 1 := by simp [idepth, hit]
         rw [hi] at hL
@@ -401,22 +823,32 @@ theorem allG : ∀ fuel, AllG fuel := by
           split
           · exact hL.frame rfl rfl rfl rfl
           · exact hL
-        have hG0 : GX (if (alookup w s.handlers).isNone then ({ s with handlers := ainsert w [] s.handlers } : State) else s) ti := by
+        have hG0 : GX (if (alookup w s.handlers).isNone then ({ s with handlers := ainsert w [] s.handlers } : State) else s) ti NoX := by
           split
-          · exact hG.frame rfl rfl rfl (fun _ h => Or.inl h)
+          · exact hG.frame rfl rfl rfl rfl rfl rfl rfl rfl
           · exact hG
+        have hS0 : TS (if (alookup w s.handlers).isNone then ({ s with handlers := ainsert w [] s.handlers } : State) else s) t := by
+          split
+          · exact hS.frame rfl rfl rfl rfl rfl
+          · exact hS
         have ht0 : (if (alookup w s.handlers).isNone then ({ s with handlers := ainsert w [] s.handlers } : State) else s).thread? ti = some t := by
           split <;> exact ht
-        generalize (if (alookup w s.handlers).isNone then ({ s with handlers := ainsert w [] s.handlers } : State) else s) = s0 at h hL0 ht0 hG0
+        generalize (if (alookup w s.handlers).isNone then ({ s with handlers := ainsert w [] s.handlers } : State) else s) = s0 at h hL0 ht0 hG0 hS0
         have hM' : ∀ (t' : Thread), t'.kind = t.kind → t'.iter = some (u, w, v, rest) → TM t' := by
           intro t' hk' hi'
-          exact ⟨fun e => by rw [hk']; exact hM.ne e, fun _ => by rw [hk']; exact hM.it (by simp [hit])⟩
+          exact ⟨fun e => by rw [hk']; exact hM.ne e, fun _ => by rw [hk']; exact hM.it (by simp [hit]),
+                 fun _ => by simp [hi']⟩
         split at h
-        · refine ih.nxt _ _ _ _ h (setThread_thread?_self (t := t) _ (by rw [log_thread?]; exact ht0)) ?_ (hM' _ rfl rfl) ?_
+        · refine ih.nxt _ _ _ _ h (setThread_thread?_self (t := t) _ (by rw [log_thread?]; exact ht0)) ?_ (hM' _ rfl rfl) ?_ ?_
           · exact (LX.log (s := { s0 with invoc := ainsert h0 ((alookup h0 s0.invoc).getD 0 + 1) s0.invoc }) (hL0.frame rfl rfl rfl rfl) (.call h0 w v u) trivial (Or.inl rfl)).setThreadMine _
-          · exact (GX.log (s := { s0 with invoc := ainsert h0 ((alookup h0 s0.invoc).getD 0 + 1) s0.invoc }) (hG0.frame rfl rfl rfl (fun _ h => Or.inl h)) _).setThreadMine (t := t) (by rw [log_thread?]; exact ht0) _ rfl
-        · refine ih.cit _ _ _ _ h (setThread_thread?_self _ (by simpa using ht0)) ?_ (hM' _ rfl rfl) ?_
+          · exact (hS0.frameLog (s' := ({ s0 with invoc := ainsert h0 ((alookup h0 s0.invoc).getD 0 + 1) s0.invoc } : State).log (.call h0 w v u)) rfl rfl rfl rfl (.call h0 w v u) rfl rfl).rel
+              (Rel.setThread (t := t) (by rw [log_thread?]; exact ht0) _ rfl) rfl rfl
+          · exact (hG0.frameLog (s' := ({ s0 with invoc := ainsert h0 ((alookup h0 s0.invoc).getD 0 + 1) s0.invoc } : State).log (.call h0 w v u))
+              rfl rfl rfl rfl rfl rfl rfl (.call h0 w v u) rfl rfl (by simp [GoodAtS])).setThreadMine (t := t) (by rw [log_thread?]; exact ht0) _ rfl rfl
+        · refine ih.cit _ _ _ _ h (setThread_thread?_self _ (by simpa using ht0)) ?_ (hM' _ rfl rfl) ?_ ?_
           · exact (hL0.log (.skip h0 u) trivial (Or.inl rfl)).setThreadMine _
-          · exact (hG0.log _).setThreadMine (t := t) (by simpa using ht0) _ rfl
+          · exact (hS0.frameLog (s' := s0.log (.skip h0 u)) rfl rfl rfl rfl (.skip h0 u) rfl rfl).rel
+              (Rel.setThread (t := t) (by simpa using ht0) _ rfl) rfl rfl
+          · exact (hG0.log _ rfl (by simp [GoodAtS])).setThreadMine (t := t) (by simpa using ht0) _ rfl rfl
 
 end WD.ProofsObs
